@@ -11,6 +11,8 @@ NAMES = ['cdilate', 'cerode', 'tophat_open', 'tophat_close', 'subm', 'open_u8', 
          'template_match_fl', 'labeled_min', 'filter_labeled', 'croptobbox', 'regmax_bc', 'locmin', 'hitmiss_u8',
          'euler_4', 'otsu_ignore_zeros', 'bernsen', 'gbernsen', 'soft_threshold', 'wavelet_center', 'daubechies_d8',
          'imresize', 'resize_to', 'spline_filter1d', 'shift_order1', 'moments', 'haralick_3d', 'lbp_transform',
+         'erode_float_bc', 'dilate_float_bc', 'label_float_bc', 'cwatershed_bc', 'median_float_bc', 'rank_float_bc',
+         'mean_filter_bc', 'locmax_float_bc', 'regmin_float_bc', 'close_holes_bc',
          'stretch', 'stretch_rgb', 'rgb2xyz', 'rgb2lab', 'rgb2grey', 'rgb2sepia', 'xyz2rgb', 'as_rgb']
 
 
@@ -19,6 +21,20 @@ def register(reg, g, mh, np):
     import mahotas.features, mahotas.features.lbp, mahotas.polygon
     cube = lambda I, n: np.stack([g(I, n)[: max(4, I.size // 2), : max(4, I.size // 2)]] * 3 +
                                  [g(I, n)[::-1, ::-1][: max(4, I.size // 2), : max(4, I.size // 2)]])
+    # a structuring element of ANOTHER dtype than the image (the wrappers convert it on every call)
+    c12 = __import__('sys').modules[reg.__module__]
+    if not hasattr(c12.Inputs, '_mk_bcf'):
+        c12.Inputs._mk_bcf = lambda self: np.array([[0., 1., 0.], [1., 1., 1.], [0., 1., 1.]])
+    reg('erode_float_bc', ['f', 'bcf'], lambda I: mh.erode(g(I, 'f'), g(I, 'bcf')))
+    reg('dilate_float_bc', ['f', 'bcf'], lambda I: mh.dilate(g(I, 'f'), g(I, 'bcf')))
+    reg('label_float_bc', ['b', 'bcf'], lambda I: mh.label(g(I, 'b'), g(I, 'bcf')))
+    reg('cwatershed_bc', ['f', 'm', 'bcf'], lambda I: mh.cwatershed(g(I, 'f'), g(I, 'm'), g(I, 'bcf')))
+    reg('median_float_bc', ['f', 'bcf'], lambda I: mh.median_filter(g(I, 'f'), g(I, 'bcf')))
+    reg('rank_float_bc', ['f', 'bcf'], lambda I: mh.rank_filter(g(I, 'f'), g(I, 'bcf'), 1))
+    reg('mean_filter_bc', ['f', 'bcf'], lambda I: mh.mean_filter(g(I, 'f'), g(I, 'bcf')))
+    reg('locmax_float_bc', ['f', 'bcf'], lambda I: mh.locmax(g(I, 'f'), g(I, 'bcf')))
+    reg('regmin_float_bc', ['f', 'bcf'], lambda I: mh.regmin(g(I, 'f'), g(I, 'bcf')))
+    reg('close_holes_bc', ['b', 'bcf'], lambda I: mh.close_holes(g(I, 'b'), g(I, 'bcf')))
     # C02
     reg('cdilate', ['f'], lambda I: mh.cdilate(g(I, 'f') // 2, g(I, 'f'), None, 3))
     reg('cerode', ['f'], lambda I: mh.cerode(g(I, 'f'), g(I, 'f') // 2))
